@@ -70,6 +70,11 @@ def diff_co(impl, model, who):
 def judge_ev(c, impl, model):
     probs = []
     ic = impl.get('count', {'err': 'missing'})
+    if c['n_jobs'] == 0:
+        # outside "n_jobs >= 1": the direct count is not what the call computes; the strided model (and the
+        # code) must raise ValueError (C11.zero_jobs_raises)
+        d = diff_co(ic, co_model(model['count']), 'strided model')
+        return [d] if d else []
     for who, key in (('direct count (model)', 'direct'), ('strided model', 'count')):
         d = diff_co(ic, co_model(model[key]), who)
         if d:
@@ -111,6 +116,11 @@ def judge_ws(c, impl, model):
     probs = []
     if model.get('n_lines') != impl.get('n_lines'):
         probs.append('line iteration: Python yields %r lines, model %r' % (impl.get('n_lines'), model.get('n_lines')))
+    if c['n_jobs'] == 0:
+        m = ws_model(model['strided'])
+        if m.get('err') != impl.get('err'):
+            probs.append('n_jobs=0: strided model %s, words_symbols %s' % (m.get('err', 'returns'), impl.get('err', 'returns')))
+        return probs
     for who, key in (('direct count (model)', 'direct'), ('strided model', 'strided')):
         m = ws_model(model[key])
         if 'err' in m:
@@ -157,7 +167,10 @@ def gen_ev(r, n_cases):
             rows.append([cs, os_, f])
         if r.random() < 0.04 and rows:
             rows[r.randrange(len(rows))][2] = r.choice(['x', '', T.ONECOL])
-        out.append({'kind': 'ev', 'stream': 'event_file', 'rows': rows, 'n_jobs': (i % 32) + 1,
+        if r.random() < 0.06 and rows:
+            # a frequency cell in another spelling int() accepts / rejects (ASCII only here; model Text.pyInt)
+            rows[r.randrange(len(rows))][2] = r.choice(['-1', '+2', ' 1 ', '1_0', '007', '\t3', '1__0', '_1', '1 0', '-0'])
+        out.append({'kind': 'ev', 'stream': 'event_file', 'rows': rows, 'n_jobs': (i % 33),   # 0 (ValueError) .. 32
                     'final_eol': r.random() < 0.85, 'mode': mode})
     return out
 
@@ -178,7 +191,7 @@ def gen_ws(r, n_cases):
         # n_jobs and lower_case are drawn independently (a parity-coupled schedule once hid the
         # n_jobs=1 x lower_case=True corner: seeded change C11_a)
         out.append({'kind': 'ws', 'stream': 'corpus_file', 'lines': lines,
-                    'n_jobs': ((i * 7) % 32) + 1 if i % 3 else r.choice([1, 1, 2, 3]),
+                    'n_jobs': ((i * 7) % 33) if i % 3 else r.choice([1, 1, 2, 3]),     # 0 (ValueError) .. 32
                     'lower_case': r.random() < 0.5, 'eol': '\n' if r.random() < 0.9 else r.choice(['\r\n', '\r']),
                     'final_eol': r.random() < 0.8})
     return out
@@ -231,7 +244,7 @@ def run(rep, pool, driver, tier):
             rep.count('event_file:has_frequency_0')
         if probs:
             failures.append((c, probs))
-        elif n >= 3 and 'err' not in model['direct']:
+        elif n >= 3 and 'err' not in model['direct'] and 'n_events' in impl.get('count', {}):
             rep.sample({'stream': 'event_file', 'lines': n, 'n_jobs': c['n_jobs'], 'first_rows': c['rows'][:3],
                         'n_events': impl['count']['n_events'], 'cues': impl['count']['cues'][:5]}, limit=2)
     # corpus files
